@@ -41,6 +41,12 @@ def matrices(rnd, tier):
         for i in range(n):
             M[i, (i + 1) % n] += rnd.choice([1, 0.01, 50])
         out.append(M)
+    # a state whose counts all sit on a single neighbour pair, without self-counts (c = 0 in the pair quadratic)
+    out += [np.array([[0., 3., 0.], [2., 5., 4.], [0., 1., 8.]]), np.array([[5., 1.], [4., 0.]]), np.array([[0., 2., 0., 0.], [3., 1., 2., 0.], [0., 2., 2., 3.], [0., 0., 4., 0.]])]
+    # large counts with dominant self-counts: the convergence test must not scale with the data
+    base = np.array([[1000., 3., 1.], [2., 800., 5.], [1., 4., 1200.]])
+    for sc in (1.0, 2e3, 2e6, 2e9):
+        out.append(base * sc)
     return out
 
 
@@ -51,6 +57,21 @@ def cases(L, tier, seed):
         yield RT.PrinzMLE('_prinz_mle'), B._prinz_mle, dict(C=np.array(C, dtype=float)), ('_prinz_mle(compiled)', C.tolist())
         yield Agree(), both, dict(C=np.array(C, dtype=float)), ('agreement', C.tolist())
         yield RT.Builder('mle'), B.mle, dict(C=np.array(C, dtype=float)), ('mle', C.tolist())
+        if np.array_equal(C, np.round(C)) and C.max() <= 60:
+            import scipy.sparse as sp
+            Ci = C.astype(int)
+            yield RT.Builder('mle'), B.mle, dict(C=sp.csr_matrix(Ci)), ('mle-csr', C.tolist())
+            # one stored entry per observed transition (what assigns_to_counts returns): duplicate coordinates are summed by SciPy
+            r, cc = np.nonzero(Ci)
+            rows = np.repeat(r, Ci[r, cc]); cols = np.repeat(cc, Ci[r, cc])
+            yield RT.Builder('mle'), B.mle, dict(C=sp.coo_matrix((np.ones(len(rows), dtype=int), (rows, cols)), shape=Ci.shape)), ('mle-coo-duplicates', C.tolist())
+            try:
+                ref = B.mle(np.array(C, dtype=float))
+            except Exception:
+                continue            # outside the estimator's domain (reported by the dense case above if it matters)
+            dup = sp.coo_matrix((np.ones(len(rows), dtype=int), (rows, cols)), shape=Ci.shape)
+            for cont, nm in ((sp.csr_matrix(Ci), 'csr'), (sp.lil_matrix(Ci), 'lil'), (dup, 'coo-duplicates')):
+                yield RT.BuilderAgreement(), (lambda reference, M: B.mle(M)), dict(reference=ref, M=cont), ('mle-container-agreement', nm, C.tolist())
 
 
 def replay(L, p):
